@@ -253,12 +253,59 @@ Example C15_flag_example : 0 <= py_singles ex_flags /\ bits_for (py_singles ex_f
   fv_not ex_flags 1 = Some (FMem 10) /\ fv_bop ex_flags BOr 1 8 = FMem 9 /\ fv_bop ex_flags BXor 1 5 = FErr.
 Proof. vm_compute. repeat split; discriminate. Qed.
 
-(* ~ under EJECT / KEEP: agrees when the shape spans exactly the members' bits and there is no hole *)
-Theorem C15_flag_invert_keep_partial E x : (fbound E = EJECT \/ fbound E = KEEP) -> 0 <= fwidth E ->
+(* ~ under EJECT / KEEP, closed form when the shape spans exactly the members' bits and there is no hole
+   (special case of the two exact theorems below) *)
+Theorem C15_flag_invert_ek_nohole E x : (fbound E = EJECT \/ fbound E = KEEP) -> 0 <= fwidth E ->
   Forall (fun m => 0 <= m) (fmembers E) -> flag_mask E = 2 ^ fwidth E - 1 -> 0 <= x < 2 ^ fwidth E ->
   fv_not E x = Some (py_flag_not E x) /\ py_flag_not E x = FMem (2 ^ fwidth E - 1 - x).
 Proof. exact (flag_not_match_keep E x). Qed.
-Print Assumptions C15_flag_invert_keep_partial.
+Print Assumptions C15_flag_invert_ek_nohole.
+
+(* EXACT, KEEP: for every shaped Flag class with non-negative members and every width: ~view equals Python's
+   Flag.__invert__ for ALL values iff the shape is exactly as wide as the members' bits (all_bits + 1 = 2^width),
+   holes or not; otherwise already ~F(0) differs (finding C15-flag-invert-wide) *)
+Theorem C15_flag_invert_keep_exact E : Forall (fun m => 0 <= m) (fmembers E) -> 0 <= fwidth E -> fbound E = KEEP ->
+  (all_bits E + 1 = 2 ^ fwidth E -> forall x, 0 <= x < 2 ^ fwidth E ->
+      fv_not E x = Some (py_flag_not E x) /\ py_flag_not E x = FMem (2 ^ fwidth E - 1 - x)) /\
+  (all_bits E + 1 <> 2 ^ fwidth E ->
+      fv_not E 0 = Some (FMem (2 ^ fwidth E - 1)) /\ py_flag_not E 0 = FMem (all_bits E) /\
+      fv_not E 0 <> Some (py_flag_not E 0)).
+Proof. intros Hnn Hw Hb. exact (flag_not_keep_iff E Hnn Hw Hb). Qed.
+Print Assumptions C15_flag_invert_keep_exact.
+
+(* EXACT, EJECT: for every class, width and value: ~view equals Python's result iff the shape is exactly as wide
+   as the members' bits AND ~x sets no bit that is not a flag (otherwise Python ejects the negative int ~x, or
+   the widths differ: finding C15-flag-invert-wide) *)
+Theorem C15_flag_invert_eject_exact E x : Forall (fun m => 0 <= m) (fmembers E) -> 0 <= fwidth E ->
+  fbound E = EJECT -> 0 <= x < 2 ^ fwidth E ->
+  (fv_not E x = Some (py_flag_not E x) <->
+   (all_bits E + 1 = 2 ^ fwidth E /\ Z.land (Z.lnot x) (Z.lxor (all_bits E) (flag_mask E)) = 0)).
+Proof. intros Hnn Hw Hb Hx. exact (flag_not_eject_iff E Hnn Hw x Hb Hx). Qed.
+Print Assumptions C15_flag_invert_eject_exact.
+
+(* EXACT, STRICT / CONFORM: besides C15_flag_invert_strict_conform, the only other case: single-bit flags that do
+   not fit the shape make the operator raise TypeError (EnumView refuses the wider `~v & singles_mask`) *)
+Theorem C15_flag_invert_strict_refused E x : (fbound E = STRICT \/ fbound E = CONFORM) ->
+  fwidth E < bits_for (py_singles E) false -> fv_not E x = None.
+Proof. exact (flag_not_strict_refused E x). Qed.
+Print Assumptions C15_flag_invert_strict_refused.
+Example C15_flag_invert_exact_example :
+  (* KEEP with a hole (members 1, 4), shape exactly 3 bits: agrees for every value *)
+  all_bits (FlagCls 3 [1; 4] KEEP) + 1 = 2 ^ 3 /\
+  forallb (fun x => match fv_not (FlagCls 3 [1; 4] KEEP) x with
+                    | Some r => match r, py_flag_not (FlagCls 3 [1; 4] KEEP) x with FMem a, FMem b => a =? b | _, _ => false end
+                    | None => false end) [0; 1; 2; 3; 4; 5; 6; 7] = true /\
+  (* EJECT with the same hole: agrees exactly when bit 1 of x is set *)
+  fv_not (FlagCls 3 [1; 4] EJECT) 2 = Some (py_flag_not (FlagCls 3 [1; 4] EJECT) 2) /\
+  Z.land (Z.lnot 2) (Z.lxor 7 5) = 0 /\ Z.land (Z.lnot 1) (Z.lxor 7 5) = 2.
+Proof. vm_compute. repeat split. Qed.
+
+(* a shaped Flag class (STRICT / KEEP) used as a layout field is the enumeration leaf of its accepted patterns:
+   every theorem about ELeaf fields applies to Flag-typed fields *)
+Theorem C15_flag_field_is_enum_field E v : 0 <= fwidth E -> 0 <= v < 2 ^ fwidth E ->
+  (memz v (flag_values E) = true <-> flag_from_bits E v = FMem v).
+Proof. exact (flag_values_spec E v). Qed.
+Print Assumptions C15_flag_field_is_enum_field.
 Example C15_flag_keep_example : flag_mask (FlagCls 3 [1; 2; 4] KEEP) = 2 ^ 3 - 1 /\
   fv_not (FlagCls 3 [1; 2; 4] KEEP) 5 = Some (FMem 2).
 Proof. vm_compute. repeat split. Qed.
